@@ -1,6 +1,11 @@
 #!/bin/sh
-# runs every check registered in MANIFEST.json (quick tier) and prints one line each
-cd "$(dirname "$0")"
-for p in $(python3 -c "import json;print(' '.join(c['property_id'] for c in json.load(open('MANIFEST.json'))['checks']))") "$@"; do
-  ./check $p --tier "${TIER:-quick}" 2>&1 | grep -E "VIOLATION|UNDECIDED|^property" | sed 's/replay=[^ ]*//' | cut -c1-220
+# runs the quick tier of every registered check; prints one line per property and a final verdict
+cd /verif
+ids=$(python3 -c "import json;print(' '.join(c['property_id'] for c in json.load(open('MANIFEST.json'))['checks']))")
+bad=0
+for p in $ids; do
+  out=$(./check "$p" 2>&1); rc=$?
+  echo "$out" | grep -E "^property=|^UNDECIDED|^VIOLATION" | cut -c1-230
+  if [ $rc -ne 0 ]; then bad=$((bad+1)); echo "  ^^^ $p exit=$rc"; fi
 done
+echo "ALL-CHECKS non-green=$bad"
